@@ -152,7 +152,7 @@ package components
 //@ func (*IPSelectorSync).recvOneEach(p) (ips, ok)
 //@   props C19
 //@   requires wf: wfInPorts(p.inPorts)
-//@   modifies chanrecv, fresh, cells
+//@   modifies chanrecv, fresh
 //@   ensures one-receive-per-port[C19]: forall k string :: k in old(p.inPorts) ==> chanRecvN(old(p.inPorts)[k].Chan) == old(chanRecvN(p.inPorts[k].Chan)) + ite(old(chanRecvN(p.inPorts[k].Chan)) < chanTotal(old(p.inPorts)[k].Chan), 1, 0)
 //@   ensures all-or-nothing[C19]: ok <==> (forall k string :: k in old(p.inPorts) ==> old(chanRecvN(p.inPorts[k].Chan)) < chanTotal(old(p.inPorts)[k].Chan))
 //@   ensures aligned-items-in-arrival-order[C19]: ips != nil && (forall k string :: k in old(p.inPorts) && old(chanRecvN(p.inPorts[k].Chan)) < chanTotal(old(p.inPorts)[k].Chan) ==> k in ips && ips[k] == chanInAt(old(p.inPorts)[k].Chan, old(chanRecvN(p.inPorts[k].Chan))))
